@@ -344,6 +344,52 @@ def gen_order_family():
             yield ((f, b, f), ("v1", "v2"))
 
 
+def _rename_value(m, old, new):
+    """Rename a main-graph value consistently (node inputs/outputs at every nesting depth, graph outputs)."""
+    def in_graph(g):
+        for n in g.node:
+            for i in range(len(n.input)):
+                if n.input[i] == old:
+                    n.input[i] = new
+            for i in range(len(n.output)):
+                if n.output[i] == old:
+                    n.output[i] = new
+            for a in n.attribute:
+                if a.type == onnx.AttributeProto.GRAPH:
+                    in_graph(a.g)
+                for sg in a.graphs:
+                    in_graph(sg)
+        for o in g.output:
+            if o.name == old:
+                o.name = new
+    in_graph(m.graph)
+
+
+def gen_nameclash_family():
+    """Models whose main-graph values carry exactly the names that the values of a called function's body have, and
+    the suffixed names a renamer would derive from them: [u(x) -> A, u'(x) -> B, Call(A) -> C, Add(C, B)] with (A, B)
+    ranging over all ordered pairs of the name pool of the callee, plus the variant with two calls."""
+    pools = {
+        "CallScale": ["fc", "fo", "fc_2", "fo_2", "fc_3"],
+        "CallTwice": ["t1", "to", "t1_2", "fc", "fo", "fc_2", "fo_2"],
+        "CallCond": ["cond_then_o", "cond_else_o", "cond_then_o_2", "cond_else_o_2", "cond_w"],
+    }
+    for call, pool in pools.items():
+        shapes = [
+            ((("Neg", "x"), ("Relu", "x"), (call, "v0"), ("Add", "v2", "v1")), ("v3",)),
+            ((("Neg", "x"), ("Relu", "x"), (call, "v0"), (call, "v1"), ("Add", "v2", "v3"), ("Sub", "v4", "v1")), ("v5", "v0")),
+        ]
+        for a in pool:
+            for b in pool:
+                if a == b:
+                    continue
+                for k, (forms, outs) in enumerate(shapes):
+                    m = make_model(forms, outs)
+                    _rename_value(m, "v0", a)
+                    _rename_value(m, "v1", b)
+                    yield (f"nameclash:{call}:{a}:{b}:{k}", m)
+
+
 def special_models():
     """Hand-written seeds for constructs outside the grammar: BatchNormalization in training mode with unused
     running statistics, an Identity between a graph input and a graph output, an output listed twice."""
